@@ -460,6 +460,10 @@ func (s *syncer) fetchChunks(ctx context.Context, snapshot *snapshot, chunks *ch
 			next = false
 
 		case <-ctx.Done():
+			// This fetcher is stopped with its request still outstanding (e.g. the
+			// application asked to retry the snapshot): give the chunk back, or
+			// nobody requests it again.
+			chunks.Release(index)
 			return
 		}
 
